@@ -40,7 +40,7 @@ class BoxEngine(Engine):
     max_ops = 40
     expected_probes = ['cache_warm_when_vects_changed', 'refused_raised', 'scribble_returned',
                        'scribble_passed', 'on_face_exact', 'nonnorm_cell', 'reexpress_norm',
-                       'reexpress_nonnorm', 'list_input', 'scalar_point', 'model_roundtrip', 'model_of_other_cell_read', 'noncontiguous_points', 'cube_rotated_cell']
+                       'reexpress_nonnorm', 'list_input', 'scalar_point', 'model_roundtrip', 'model_of_other_cell_read', 'noncontiguous_points', 'cube_rotated_cell', 'bulk_points_query']
     rule = ('Each run drives ONE Box object (occasionally replaced by a constructor or deepcopy) through up to 40 '
             'seeded operations: the five setter families (set_vectors, set_abc, set_lengths, set_hi_los, '
             'set(**kw)), direct vects=/origin= assignment, constructors and crystal-family class methods, '
@@ -215,6 +215,10 @@ class BoxEngine(Engine):
                     p.append(r.choice([-7.0, 12.0, 0.5]))
             pts.append(p)
         rel = np.array(pts).reshape(tuple(shape) + (3,))
+        if r.random() < 0.03:
+            # a large set of points in one call (drawn in apply from the recorded seed: replay files stay small)
+            return {'op': 'query', 'rel': [[0.5, 0.5, 0.5]], 'bulk': {'n': r.choice([10000, 12000, 20011]), 'seed': r.getrandbits(31)},
+                    'as_list': False, 'inclusive': r.random() < 0.5, 'face': None, 'int_input': False, 'layout': r.choice(['C', 'F'])}
         return {'op': 'query', 'rel': rel, 'as_list': r.random() < 0.4, 'inclusive': r.random() < 0.5,
                 'face': r.choice([None, None, 0, 1, 2, 3, 4, 5]), 'int_input': r.random() < 0.1,
                 'layout': r.choice(['C', 'C', 'F', 'strided', 'T'])}
@@ -420,6 +424,10 @@ class BoxEngine(Engine):
     def _apply_query(self, ctx, st, op):
         box, V, o = st['box'], st['V'], st['o']
         rel = np.array(op['rel'], dtype=float)
+        if op.get('bulk'):
+            g = np.random.Generator(np.random.PCG64(int(op['bulk']['seed'])))
+            rel = g.uniform(-0.6, 1.6, size=(int(op['bulk']['n']), 3))
+            ctx.probe('bulk_points_query')
         if op.get('int_input'):
             rel = np.round(rel * 2)          # integer-valued relative coordinates
         cart = geom.rel_to_cart(V, o, rel)
